@@ -944,7 +944,7 @@ func runHist10(o *hx.Out, d Desc10, origin string) {
 				tsm1.SetVerifPoint(func(name string, args ...interface{}) {
 					if name == "snapshot.written" && !fired {
 						fired = true
-						r.xs = append(r.xs, "XS SnapWriteTmp")
+						r.xs = append(r.xs, "XTry SnapWriteTmp") // a cache with no keys but a residual byte count is snapshotted by the code and is an empty snapshot in the model
 						// the delete is issued by another client while the snapshot is in flight
 						// (its file written, not yet installed).  Engine.snapshotMu must hold it
 						// back until the snapshot is committed.
